@@ -419,6 +419,23 @@ func c17Generate(r *rng.R, n int) []c17Scenario {
 						}
 						deliberate = true
 						s.Clash = "file-vs-directory between plugin paths"
+						// a third path that sorts BETWEEN the clashing file and what lies below it (the byte
+						// after the common name is below '/'): the clash is then not between neighbours
+						if r.Chance(1, 2) {
+							fileSide := other
+							if !strings.HasPrefix(cleanRel(path), cleanRel(other)+"/") {
+								fileSide = path
+							}
+							if fs := strings.TrimRight(fileSide, "/"); fs != "" && !strings.Contains(fs, "..") {
+								inter := fs + []string{".txt", "-x", "+y", "!z", ",w", ".go"}[r.Intn(6)]
+								if !taken[cleanRel(inter)] {
+									p.Files = append(p.Files, kv2{inter, fmt.Sprintf("%s#%d", p.key(), len(p.Files))})
+									raw = append(raw, inter)
+									taken[cleanRel(inter)] = true
+									s.Clash = "file-vs-directory between plugin paths, not neighbours in sorted order"
+								}
+							}
+						}
 					case r.Chance(1, 9):
 						// file-vs-directory with a core file, if there is one at that position: a file
 						// below it, or one of its directories as a file
